@@ -21,6 +21,8 @@ class Scenario:
     pool      : thread_pool_size
     chunks    : list of lists of requests (rid, 'SUB'|'USB', item) — one recv each
     behav     : item -> dict(snap=[...], sub=[...], usb=[...], nest=[...], nest_usb=[...])
+                (an element of a nest list may be [kind, other item]: cross-item re-entrancy; such scenarios are judged by the
+                 oracles only — the per-item model has no label for it)
                 outcomes per successive call: snap: True/False/('raise', cls); sub/usb: 'ret' | ('raise', cls)
                 nest: per successive subscribe() call a list of listener kinds ('upd','eos','cls') performed inside it
     free      : list of adapter-owned threads, each a list of (kind, item)
@@ -108,7 +110,12 @@ def make_adapter(S, sc, log):
             log['calls'].append(c)
             nest, _ = self._next(item, 'nest' if name == 'subscribe' else 'nest_usb') if name in ('subscribe', 'unsubscribe') else (None, 0)
             for kind in (nest or []):
-                do_listener(S, self, log, kind, item, 'nested', within=c)
+                # an element is a listener kind (for the item of the call) or [kind, other item]: the adapter may report
+                # on ANY item from inside subscribe() / unsubscribe() of this one
+                if isinstance(kind, (list, tuple)):
+                    do_listener(S, self, log, kind[0], kind[1], 'nested', within=c)
+                else:
+                    do_listener(S, self, log, kind, item, 'nested', within=c)
             S.yield_('callE', (name, item, out))
             c.e = S.step_no
             c.outcome = out
@@ -199,7 +206,7 @@ def run_scenario(sc, chooser, eager=('writer',), max_steps=6000, probe=True, fin
         r.n_events = len(S.events)
         # after quiescence: one listener call per item from the controller thread (not scheduled)
         r.probe = {}
-        if probe and r.status == 'quiescent':
+        if probe and r.status == "quiescent" and env.queues:
             q = env.queues[0]
             for item in sorted(set(x[2] for x in sc.requests())):
                 n0 = len(q.log)
@@ -413,6 +420,16 @@ def compare_with_model(ctx, runs):
 
 
 # ---------------------------------------------------------------- oracles (implementation observables only)
+def submissions(r):
+    """the messages handed to the writer, as (kind, step, thread, message): the puts on the queue stand-in, or — when the
+    writer keeps its backlog in something else — the calls of _Sender.send"""
+    ev = r.events[:r.n_events]
+    puts = [e for e in ev if e[0] == 'put']
+    if puts:
+        return puts
+    return [e for e in ev if e[0] == 'send-msg']
+
+
 class Facts:
     """derived, per item, from a Run: request list with arrival step, reply lines, adapter calls attributed to requests"""
 
@@ -426,8 +443,8 @@ class Facts:
         for k, rq in enumerate(self.reqs):
             self.arrival[rq[0]] = arr[k] if k < len(arr) else None
         self.puts = []          # (step, thread, is_notif, line)
-        for e in r.events[:r.n_events]:
-            if e[0] == 'put' and isinstance(e[3], str) and e[3] not in ('STOP_WAITING_PILL', 'KEEPALIVE_PILL'):
+        for e in submissions(r):
+            if isinstance(e[3], str) and e[3] not in ('STOP_WAITING_PILL', 'KEEPALIVE_PILL'):
                 n, line = strip_ts(e[3])
                 self.puts.append((e[1], e[2], n, line))
         self.replies = collections.defaultdict(list)    # rid -> [(step, thread, line)]
@@ -659,7 +676,7 @@ def oracle_c03(r, F):
             continue
         got = fate.get(id(lc))
         # inside subscribe()
-        if lc.within is not None and lc.within.name == 'subscribe':
+        if lc.within is not None and lc.within.name == 'subscribe' and lc.within.item == lc.item:
             want = sub_call_of.get(id(lc.within))
             if want is not None and got != want:
                 out.append(('event %s submitted inside subscribe() of %s was %s' % (lc.tag, want, 'dropped' if got is None else 'sent with id ' + got), {'kind': 'inside_subscribe'}))
@@ -827,7 +844,7 @@ def oracle_c16(r, F):
     if not stream.endswith(b'\r\n') and stream:
         out.append(('the byte stream does not end with a complete line', {'kind': 'partial_line'}))
     lines = stream.split(b'\r\n')[:-1] if stream else []
-    puts = [(e[1], e[2], e[3]) for e in r.events[:r.n_events] if e[0] == 'put' and isinstance(e[3], str)
+    puts = [(e[1], e[2], e[3]) for e in submissions(r) if isinstance(e[3], str)
             and e[3] not in ('STOP_WAITING_PILL', 'KEEPALIVE_PILL')]
     want = [p[2].encode('utf-8') for p in puts]
     if r.status == 'quiescent' and r.sc.fail_send is None:
